@@ -15,7 +15,9 @@ Mirrors, branch by branch and in the order of the Go code:
 
 Cryptography is abstract (`Crypto`): key parsing / serialisation / ordering, signature parsing, `verify`, the address
 hash `h160 = ripemd160 ∘ sha256`, the transaction hash `H`.  `verify` has three outcomes because the library call
-`s.Verify` panics (slice bounds) for an Ethereum-type key and a `KECCAK256WithECDSA` signature shorter than 64 bytes.
+`s.Verify` can panic: slice bounds for an Ethereum-type key and a `KECCAK256WithECDSA` signature shorter than 64 bytes;
+`crypto/elliptic: CombinedMult was called on an invalid point` for an uncompressed NIST-curve key that is not on the
+curve (`ec.DecodePublicKey` does not check) and an `SM3withSM2` signature.
 
 Executable, core-only, structural recursion only (loops carry fuel; `Proofs/SigCheck.lean` shows the fuel is never
 exhausted), so that `decide` can evaluate concrete witnesses.
@@ -50,7 +52,7 @@ inductive Variant | asShipped | sound
 /-- which of the recorded defects are repaired -/
 structure Cfg where
   dupKeys : Variant      -- .sound: a verification script that lists a key twice is rejected
-  shortSig : Variant     -- .sound: the panicking `s.Verify` call is guarded (counts as verification failure)
+  shortSig : Variant     -- .sound: a panicking `s.Verify` call is guarded (counts as verification failure)
   fallback : Variant     -- .sound: `GetSignatureAddresses` derives addresses like the validator
   deriving DecidableEq, Repr
 
